@@ -114,7 +114,7 @@ EXTRA_TEXT = {
  "C09": "Also decided: the same kernel for a two-pin port whose bits are on distinct nets (each bit merged whatever happened for the one before).",
  "C11": "Also decided: the hierarchical-wire and hierarchical-cable name maps contain exactly one entry per occurrence below the top (wire-only cells included), named by path, cable and bus index, on three fixtures with symbolic naming flags.",
  "C12": "Quick tier fixtures: shared-sub and wire-only (a cell with nets but no children one level down). Also decided on the same fixtures: get_hcables(start, ALL) returns exactly the cables of the connected net; get_hpins(hierarchical wire) returns exactly the pins attached to it; get_hwires(hierarchical pin, INSIDE/OUTSIDE) returns exactly the wire on that side.",
- "C13": "Also decided: brackets in wildcard patterns are literal; the name maps behind get_hwires/get_hcables (see C11).",
+ "C13": "Also decided: brackets in wildcard patterns are literal; the name maps behind get_hwires/get_hcables (see C11); E1 on the flat queries get_instances/get_cables/get_ports/get_definitions from an arbitrary well-formed state: result == unfiltered result restricted to the elements whose value matches either of two symbolic patterns (independent matcher), unfiltered result == the named children, no element twice.",
  "C18": "Also decided: connect_pin_to_wire joins a pin to the named net of the model being read, across two consecutive models (parser built by its real __init__).",
  "C20": "Also decided on a shape with two instances of the two-pin cell (a net moved to the same pin of the other instance is rejected); the comparer is built by its real __init__.",
  "C14": "Instance.reference is additionally decided on shape-concrete universes with two ports per definition (equal, growing and shrinking second port).",
